@@ -267,6 +267,17 @@ def validate(pid, cases, tag, V, known_skip=None):
     property's violation if the rejected event is one of its kinds) and cut out, the rest is still checked."""
     import os
     from .common import WORK, tlc, write_cfg, ToolError
+    import subprocess
+    try:
+        probe = subprocess.run(["strace", "-o", "/dev/null", "true"], capture_output=True, timeout=60)
+        usable = probe.returncode == 0
+    except (OSError, subprocess.TimeoutExpired):
+        usable = False
+    if not usable:
+        # (no ptrace in this environment: nothing is claimed from this part, and nothing can alarm)
+        V.notes.append("strace cannot trace in this environment: the system-call validation against Trace_Loader.tla was skipped")
+        V.cov["systrace_cases"] = 0
+        return 0, 0
     events, obs = record(cases, tag)
     runs = [r for r in split_cases(events) if r and r[0]["ev"] == "case"]
     # a case the harness did not finish (the process died) has no complete run: judged by the replay, not here
